@@ -41,7 +41,7 @@ def wkObs (s : Xdist.Sys.State Any String) (k : Nat) : String :=
     let cur := if running then (match w.w.cur with | some i => toString i | none => "-") else "-"
     let holdsNext := w.phase = .loop ∧ (w.w.pc = .running ∨ w.w.pc = .haveItem)
     let nx := if holdsNext then (match w.w.next with | some q => showQ q | none => "-") else "-"
-    s!"w pc={pcName w} cur={cur} next={nx} q={q} in={w.inbox.length} out={w.outbox.length} alive={showBool w.alive} cq={s.cq.length}"
+    s!"w pc={pcName w} cur={cur} next={nx} q={q} in={w.inbox.length} out={w.outbox.length} alive={showBool w.alive} cq={(s.wk.map (fun x => x.posted.length)).foldl (· + ·) 0}"
 
 def parseErrs : List String → Option (List (String × Bool))
   | [] => some []
@@ -71,11 +71,13 @@ def parseStep (ws : List String) : Option Xdist.Sys.Step :=
   | ["crash", k, b] => do
     let k ← k.toNat?; let b ← parseBool b
     pure (.crash k b)
-  | ["ctl", rq] => (parseBool rq).map .ctl
+  | ["ctl", k, rq] => do
+    let k ← k.toNat?; let b ← parseBool rq
+    pure (.ctl k b)
   | _ => none
 
 def stepTarget : Xdist.Sys.Step → Option Nat
-  | .main k _ => some k | .deliver k => some k | .recv k => some k | .crash k _ => some k | .ctl _ => none
+  | .main k _ => some k | .deliver k => some k | .recv k => some k | .crash k _ => some k | .ctl _ _ => none
 
 def handle (st : St) (line : String) : St × String :=
   match words line with
